@@ -89,9 +89,10 @@ class World(BaseWorld):
         super().__init__(cfg, desc)
         from maltoolbox.language import LanguageGraph, LanguageClassesFactory
         from maltoolbox.model import Model
-        from maltoolbox.attackgraph import AttackGraph
+        from maltoolbox.attackgraph import AttackGraph, Attacker
         from maltoolbox.attackgraph.analyzers import apriori
         from maltoolbox import wrappers
+        self.Attacker_cls = Attacker
         self.LanguageGraph, self.LanguageClassesFactory = LanguageGraph, LanguageClassesFactory
         self.Model, self.AttackGraph, self.apriori, self.wrappers = Model, AttackGraph, apriori, wrappers
         self.S0 = canon(desc['spec'])
@@ -222,7 +223,8 @@ class World(BaseWorld):
 
     # -------------------------------------------------------------------- ops
     def gen_op(self, rng):
-        kinds = [(3, 'twice'), (2, 'interleaved'), (2, 'inputs'), (2, 'other_work'), (3, 'wrapper')]
+        kinds = [(3, 'twice'), (2, 'interleaved'), (2, 'regenerated'), (2, 'inputs'),
+                 (2, 'other_work'), (3, 'wrapper')]
         kind = weighted(rng, kinds)
         if rng.random() < self.cfg.get('p_child', 0.3):
             kind = 'child'
@@ -322,6 +324,36 @@ class World(BaseWorld):
         self._same(graph_digest(g2), 'second of two graphs generated before attaching', fmt)
         self.count('probe:two_graphs_before_attach')
         self._inputs_unchanged(model, spec_obj, 'two interleaved generations')
+        return 'ok'
+
+    def do_regenerated(self, op):
+        """generate + attach + analyse, then regenerate the same graph object and run the
+        rest of the pipeline again: indistinguishable from the first time."""
+        fmt = op['model_fmt']
+        g, (lg, model, spec_obj) = self._exec_api(fmt, keep=True)
+        if g is None:
+            raise SetupRejected('generate:late')
+        # somebody also registers an attacker by hand (entry points only) on this graph
+        if g.nodes:
+            call(g.add_attacker, self.Attacker_cls(name='manual', entry_points=[],
+                                                   reached_attack_steps=[]),
+                 entry_points=[g.nodes[0].id])
+        o = call(g.regenerate_graph)
+        if o.raised:
+            raise Violation('C16.same', f'regenerate_graph raised {o.exc!r}')
+        o = call(g.attach_attackers)
+        if o.raised:
+            raise Violation('C16.same', f'attach_attackers after regenerate raised {o.exc!r}')
+        o = call(self.apriori.calculate_viability_and_necessity, g)
+        if o.raised:
+            raise Violation('C16.same', f'analysis after regenerate raised {o.exc!r}')
+        self.executions += 1
+        self._same(graph_digest(g), 'regenerated graph (generate, attach, regenerate, attach, analyse)', fmt)
+        # ... and a brand-new graph built afterwards in the same process
+        d, _ = self._exec_api(fmt)
+        if d is not None:
+            self._same(d, 'new graph after another graph was regenerated and given a manual attacker', fmt)
+        self.count('probe:regenerated_then_attached')
         return 'ok'
 
     def _inputs_unchanged(self, model, spec_obj, where):
